@@ -372,10 +372,15 @@ func init() {
 		})
 		// a numeric or boolean type that also has a String method keeps its
 		// number and its truth value (its string is what String returns)
-		sub.Rapid(c, n/50, func(t *rapid.T) *c15Case {
+		sub.Rapid(c, n/25, func(t *rapid.T) *c15Case {
 			k := rapid.IntRange(0, 12).Draw(t, "k")
 			b := sb.V{K: "int", N: float64(k)}
-			return &c15Case{Rel: "numstringer", A: sb.V{K: rapid.SampledFrom([]string{"named:month", "named:duration", "named:level"}).Draw(t, "nk"), N: float64(k)}, B: &b}
+			nk := rapid.SampledFrom([]string{"named:month", "named:duration", "named:level", "named:ulevel", "named:u64level", "named:flevel32", "named:flevel64", "named:bflag"}).Draw(t, "nk")
+			if nk == "named:bflag" {
+				b = sb.V{K: "bool", B: k%2 == 1}
+				return &c15Case{Rel: "numstringer", A: sb.V{K: nk, B: k%2 == 1}, B: &b}
+			}
+			return &c15Case{Rel: "numstringer", A: sb.V{K: nk, N: float64(k)}, B: &b}
 		})
 		// defined string and bool types coerce like string and bool
 		sub.Rapid(c, n/50, func(t *rapid.T) *c15Case {
